@@ -51,8 +51,18 @@ def check_message_immutability():
         raise ExtractError("message/ is no longer evidently immutable-by-construction: " + "; ".join(bad))
 
 
+def subnet_kernels():
+    """C09: arithmetic kernels of subnetting.rs / Obm::cmp + representation certificates."""
+    import extract_subnet
+    try:
+        write_if_changed("SubnetKernels.lean", extract_subnet.generate(CORE))
+    except extract_subnet.ExtractError as e:
+        raise ExtractError("subnet kernels: " + str(e))
+
+
 def main():
     check_message_immutability()
+    subnet_kernels()
     consts = ["-- GENERATED from /repo sources by tools/extract.py on every check; do not edit", "namespace Elvis.Gen", "end Elvis.Gen", ""]
     write_if_changed("Consts.lean", "\n".join(consts))
 
